@@ -12,6 +12,7 @@
 import Hw.Topo.HistoryLemmas
 import Hw.Topo.InsertWF
 import Hw.Topo.InsertOrder
+import Hw.Topo.InsertOrd2
 namespace Hw.Props.C02
 open Hw.Topo Hw.Topo.Hist
 
@@ -141,6 +142,16 @@ bits the position remembered from cpusets and the put-back by complete cpusets n
 differential comparison `modified-on-failure`.) -/
 theorem C02_refused_insert_unchanged (t : T) (obj : IObj) (hL : Lam t) (hO : Ord t) (hs : sub obj.key t.o.key) (t' : T)
     (h : ins obj t = .failed t') : t' = t := ins_failed_unchanged t obj hL hO hs t' h
+
+open Hw.Topo.Ins in
+/-- the routine keeps the children lists ordered: on a laminar, ordered tree without offline / disallowed bits, after an insertion
+or a merge of a non-empty object with cpuset = complete cpuset every children list is still strictly ordered by the first bit of
+the complete cpuset (the `siblings-ordered` clause of C01), at every level -/
+theorem C02_insert_keeps_order (t : T) (obj : IObj) (hL : Lam t) (hO : Ord t) (hs : sub obj.key t.o.key)
+    (hkc : obj.key = obj.ckey) (hne : obj.key ≠ 0) :
+    (∀ t', ins obj t = .inserted t' → Ord t') ∧ (∀ t' m, ins obj t = .merged t' m → Ord t') := by
+  have h := ins_ordered t obj hL hO hs hkc hne
+  refine ⟨fun t' e => ?_, fun t' m e => ?_⟩ <;> rw [e] at h <;> exact h.1
 
 open Hw.Topo.Ins in
 /-- the same through the public entry point `hwloc_topology_insert_group_object` (set clipping, cpuset from the nodeset,
